@@ -1,0 +1,4 @@
+// Package export re-exports, under the `verif` build tag only, internal
+// packages of Task so that an external verification harness can drive them
+// in-process. Without the tag the package is empty.
+package export
